@@ -21,10 +21,17 @@ import (
 func (i *interpreter) concreteBytes(v value, what string) []byte {
 	s := v.([]value)
 	b := make([]byte, len(s))
+	nsym := 0
 	for k, e := range s {
 		c, ok := e.(uint8)
 		if !ok {
-			panic(engineAbort{abInconclusive, "symbolic byte reached the JSON model (" + what + ")"})
+			// a few symbolic bytes are concretised (one path per feasible value)
+			nsym++
+			sv, isSym := e.(sym)
+			if !isSym || nsym > 3 {
+				panic(engineAbort{abInconclusive, "symbolic bytes reached the JSON model (" + what + ")"})
+			}
+			c = i.concretize(sv).(uint8)
 		}
 		b[k] = c
 	}
